@@ -5,7 +5,7 @@
 (*                                                                         *)
 (* It is an observer automaton over the event vocabulary                   *)
 (*   CALL RET SEND DLV OPEN CLOSE PEERCLOSE ERR CONN CONNFAIL LOST UCLOSE  *)
-(*   UCLOSED UNHANDLED HANG LOOP END                                       *)
+(*   UCLOSED UCANCEL UNHANDLED HANG LOOP END                               *)
 (* It is total (no event ever blocks), constrains only what the properties *)
 (* state, and reports every failed clause by name.                         *)
 (*                                                                         *)
@@ -33,18 +33,19 @@ CONSTANTS
 None == [kind |-> "none", t |-> 0, fs |-> <<>>, code |-> 0]
 
 \* clauses that describe behaviour outside the quantifier of a listed property: reported, never a violation
-ObsClauses == {"OBS.TxBoundConcurrent"}
+ObsClauses == {"OBS.TxBoundConcurrent", "OBS.CancelSwallowed", "OBS.StaleTimerAfterUserCancel", "OBS.TxBoundAfterUserCancel"}
 
 NewReq == [st |-> "new", sends |-> 0, first |-> 0, last |-> 0, lastEv |-> 0, net |-> FALSE,
            wait |-> 0, conn |-> FALSE, parts |-> <<>>, hasBuf |-> FALSE, buf |-> NoFrame, bufT |-> 0,
-           dirty |-> FALSE, expect |-> None, trs |-> {}, spacingBad |-> FALSE]
+           dirty |-> FALSE, expect |-> None, trs |-> {}, spacingBad |-> FALSE, uc |-> FALSE]
 
 InitM(nreq) == [open    |-> {},
                 rq      |-> [r \in 1..nreq |-> NewReq],
                 lastReq |-> 0,
                 lastTx  |-> -1,
                 reuse   |-> [valid |-> FALSE, tr |-> 0],
-                hist    |-> FALSE]       \* a request has completed before on this object
+                hist    |-> FALSE,       \* a request has completed before on this object
+                ucHist  |-> FALSE]       \* the user cancelled a task in the middle of a request before
 
 Active(mm) == {r \in DOMAIN mm.rq : mm.rq[r].st = "act"}
 
@@ -77,16 +78,20 @@ OnSend(mm, e, meta) ==
                            !.parts = <<>>, !.hasBuf = FALSE, !.buf = NoFrame, !.dirty = FALSE, !.expect = None,
                            !.trs = q.trs \cup {e.tr},
                            !.spacingBad = q.spacingBad \/ (~q.net /\ q.sends > 0 /\ e.t # q.first + q.sends * meta.T)]
-           v == (IF q.sends + 1 > meta.retries + 1
-                 THEN IF single THEN {"C04.TxBound"} ELSE {"OBS.TxBoundConcurrent"} ELSE {})
+           \* (a user cancellation that lands between the arrival of the answer and the wake-up of the task finds the retry
+        \* counter already reset: one more transmission than the budget - outside C04's quantifier, an observation)
+        v == (IF q.sends + 1 > meta.retries + 1
+                 THEN IF q.uc THEN {"OBS.TxBoundAfterUserCancel"}
+                      ELSE IF single THEN {"C04.TxBound"} ELSE {"OBS.TxBoundConcurrent"} ELSE {})
                 \cup (IF meta.assume /\ \E r2 \in Active(mm) \ {r} : mm.rq[r2].sends > 0 /\ mm.rq[r2].wait > e.t
                       THEN {"C06.Mutex"} ELSE {})
                 \cup (IF tx # -1 /\ (tx = 0 \/ tx = mm.lastTx) THEN {"C03.TxId"} ELSE {})
                 \cup (IF single /\ q.sends > 0 /\ ~q.net /\ e.t < q.last + meta.T
-                      THEN {"C05.FullTimeout"} ELSE {})
+                      THEN {IF mm.ucHist THEN "OBS.StaleTimerAfterUserCancel" ELSE "C05.FullTimeout"} ELSE {})
                 \cup (IF q.expect.kind # "none" THEN {"C04.SendAfterDecision"} ELSE {})
                 \* C07: while the head of an answer is buffered, its second piece has one timeout to arrive
-                \cup (IF single /\ q.hasBuf /\ ~q.dirty /\ e.t < q.bufT + meta.T THEN {"C07.WaitForSecondPiece"} ELSE {})
+                \cup (IF single /\ q.hasBuf /\ ~q.dirty /\ e.t < q.bufT + meta.T
+                      THEN {IF mm.ucHist THEN "OBS.StaleTimerAfterUserCancel" ELSE "C07.WaitForSecondPiece"} ELSE {})
        IN R([mm EXCEPT !.rq[r] = q2, !.lastReq = r, !.lastTx = tx], v)
 
 OnDlv(mm, e, meta) ==
@@ -152,8 +157,11 @@ OnRet(mm, e, meta) ==
         silent == single /\ ~q.net
         builtFrom == \/ \E k \in 1..Len(q.parts) : IsData(e.f, <<q.parts[k]>>)
                      \/ \E k \in 1..(Len(q.parts) - 1) : IsData(e.f, <<q.parts[k], q.parts[k + 1]>>)
-        v1 == IF e.out \notin {"ok", "rejected", "failed"} THEN {"C09.Family", "C04.Outcome"}
+        \* a request whose task the user cancelled may end in CancelledError (it does not: OBS.CancelSwallowed)
+        v1 == IF q.uc /\ e.out = "cancelled" THEN {}
+              ELSE IF e.out \notin {"ok", "rejected", "failed"} THEN {"C09.Family", "C04.Outcome"}
               ELSE IF ~ok /\ ~e.fam THEN {"C09.Family"} ELSE {}
+        v0 == IF q.uc /\ e.out # "cancelled" THEN {"OBS.CancelSwallowed"} ELSE {}
         v2 == IF single /\ e.t > q.lastEv + (IF q.conn THEN meta.CT ELSE meta.T) THEN {"C04.Deadline"} ELSE {}
         v3 == IF q.expect.kind = "ok"
               THEN IF ok /\ (single => e.t = q.expect.t) /\ IsData(e.f, q.expect.fs) THEN {}
@@ -172,11 +180,14 @@ OnRet(mm, e, meta) ==
                     /\ ~q.spacingBad
                     /\ e.out = "failed"
                     /\ e.t = q.first + (meta.retries + 1) * meta.T
+        \* after a user cancellation the timer of the abandoned attempt is still armed (UDP) and may cut a later attempt
+        \* short: outside the histories C05 quantifies over, reported as an observation
         v5 == IF silent /\ ~silentOk
-              THEN IF mm.hist THEN {"C05.SilentAfterHistory"} ELSE {"C04.Silent"}
+              THEN IF mm.ucHist THEN {"OBS.StaleTimerAfterUserCancel"}
+                   ELSE IF mm.hist THEN {"C05.SilentAfterHistory"} ELSE {"C04.Silent"}
               ELSE {}
         v6 == IF single /\ ~ok /\ q.sends > 0 /\ ~q.net /\ e.t < q.last + meta.T
-              THEN {"C05.FullTimeout"} ELSE {}
+              THEN {IF mm.ucHist THEN "OBS.StaleTimerAfterUserCancel" ELSE "C05.FullTimeout"} ELSE {}
         v7 == IF others = {} /\ ~meta.ka /\ mm.open # {} THEN {"C10.NoLeak"} ELSE {}
         v8 == IF meta.ka /\ ok /\ mm.reuse.valid /\ q.sends = 1 /\ q.trs # {mm.reuse.tr}
               THEN {"C10.Reuse"} ELSE {}
@@ -184,7 +195,14 @@ OnRet(mm, e, meta) ==
         reuse2 == IF ok /\ meta.ka /\ lastTr \in mm.open THEN [valid |-> TRUE, tr |-> lastTr]
                   ELSE [valid |-> FALSE, tr |-> 0]
     IN R([mm EXCEPT !.rq[r] = [NewReq EXCEPT !.st = "done"], !.reuse = reuse2, !.hist = TRUE],
-         v1 \cup v2 \cup v3 \cup v4 \cup v5 \cup v6 \cup v7 \cup v8)
+         v0 \cup v1 \cup v2 \cup v3 \cup v4 \cup v5 \cup v6 \cup v7 \cup v8)
+
+\* the user cancelled the task that runs request e.r: from here on the attempt in flight is abandoned; what the peer
+\* sent for it no longer obliges the library, timing clauses of this request are off (like after a network fault)
+OnUCancel(mm, e, meta) ==
+    IF e.r \notin DOMAIN mm.rq \/ mm.rq[e.r].st # "act" THEN R(mm, {})
+    ELSE R([mm EXCEPT !.rq[e.r].net = TRUE, !.rq[e.r].lastEv = e.t, !.rq[e.r].wait = e.t, !.rq[e.r].dirty = TRUE,
+                      !.rq[e.r].expect = None, !.rq[e.r].uc = TRUE, !.ucHist = TRUE], {})
 
 OnUClosed(mm, e, meta) ==
     R([mm EXCEPT !.reuse.valid = FALSE],
@@ -210,6 +228,7 @@ Step(mm, e, meta) ==
       [] e.e = "CLOSE" -> OnClosed(mm, e, meta)
       [] e.e = "UCLOSE" -> OnNetFault(mm, e, meta)
       [] e.e = "UCLOSED" -> OnUClosed(mm, e, meta)
+      [] e.e = "UCANCEL" -> OnUCancel(mm, e, meta)
       [] e.e = "UNHANDLED" -> R(mm, {"C09.NoUnhandled"})
       [] e.e = "HANG" -> R(mm, {"C04.Terminates"})
       [] e.e = "LOOP" -> OnLoop(mm, e, meta)
